@@ -1,5 +1,6 @@
 import QmcProofs.RvbKernel
 import QmcProofs.RvbRegionOK
+import QmcProofs.RvbRegionDerive
 import QmcProps.C03
 
 /-!
@@ -27,7 +28,7 @@ shortcut; `closeExact_of_grid`: true for couplings on a grid of step `≥ eps/2`
 -/
 
 namespace Qmc.C03
-open Qmc Qmc.Rvb Qmc.Dist Qmc.Kernel Qmc.Rvb.ExtractFlip Qmc.Rvb.Kernel
+open Qmc Qmc.Rvb Qmc.Dist Qmc.Kernel Qmc.Rvb.ExtractFlip Qmc.Rvb.Kernel Qmc.Rvb.Derive
 
 /-! ## G1: the extract-flip lemma -/
 
@@ -223,6 +224,44 @@ theorem ising_timestep_invariant_rvb_proposal (E : Ising) (L : Nat) (he : EdgesO
           (isingHam_varsOK he)) E.nvars) :=
   Qmc.Rvb.Kernel.ising_timestep_invariant_rvb_cut E L he hg β hβ eps hclose _ Rs
 
+/-! ## `RegionOK` derived for the model's own proposal; deciders -/
+
+/-- **the region `proposeRegion` hands over is well formed** — for every Good configuration and every RNG
+script on which the exact proposal model does not panic. (`RegionOK` is no longer a hypothesis about the
+model's proposal; for the real code it is additionally observed on every traced proposal by the driver.) -/
+theorem rvb_proposeRegion_regionOK {E : Ising} {c : Config} (hg : Good (isingHam E) c) (rs : RS)
+    (hp : (proposeRegionCfg E c rs).1.panic = false) :
+    RegionOK E c ((proposeRegionCfg E c rs).1.region E.nvars) :=
+  proposeRegion_regionOK hg rs hp
+
+/-- a region proposed with positive probability (under any finite script distribution) is well formed -/
+theorem rvb_regionOK_of_proposed {E : Ising} {μ : List (List Nat × Rat)} {c : Config} {R : Region}
+    (hg : Good (isingHam E) c) (hq : qProp E μ (Rvb.skeleton E c) R ≠ 0) : RegionOK E c R :=
+  regionOK_of_qProp hg hq
+
+/-- with the model's proposal law the `RegionOK` guard of the kernel is redundant: `rvbKP` (guard: move
+relation, Good, no underflow — nothing about the region) is the same kernel as `rvbK` -/
+theorem rvb_kernel_proposal_eq (E : Ising) (N : Nat) (eps : Rat) (μ : List (List Nat × Rat))
+    (Rs : List Region) (S : Finset Config) : rvbKP E N eps μ Rs S = rvbK E N eps (qProp E μ) Rs S :=
+  rvbKP_eq_rvbK E N eps μ Rs S
+
+/-- **one Ising `timestep` with the RVB update, model's proposal law, NO hypothesis on the regions** -/
+theorem ising_timestep_invariant_rvb_cut_proposal (E : Ising) (L : Nat) (he : EdgesOK E) (hg : 0 ≤ E.gamma)
+    (β : Rat) (hβ : 0 < β) (eps : Rat) (hclose : CloseExact E eps) (μ : List (List Nat × Rat))
+    (Rs : List Region) :
+    Invariant (sseCutOn (isingHam E) β (cfgSpace (isingHam E) E.nvars L))
+      (timestepWith (sweepKM (isingHam E) β (cfgSpace (isingHam E) E.nvars L) L)
+        [restr (cfgSpace (isingHam E) E.nvars L)
+          (rvbKP E E.nvars eps μ Rs (cfgSpace (isingHam E) E.nvars L))]
+        (ClusterFamily.ofComponents (isingFrozen (isingEdges E).length E.nvars) (isingHam E) E.nvars L
+          (isingHam_varsOK he)) E.nvars) :=
+  Qmc.Rvb.Derive.ising_timestep_invariant_rvb_cut_proposal E L he hg β hβ eps hclose μ Rs
+
+/-- the executable decider of the kernel's transition condition (evaluated by the driver on every applied
+update) is sound -/
+theorem rvb_moveOK_decider {E : Ising} {N : Nat} {R : Region} {c c' : Config}
+    (h : moveOKb E N R c c' = true) : MoveOK E N R c c' := moveOKb_sound h
+
 /-! ## non-vacuity: the frustrated triangle `exE`, `exB → exA` on `exR` -/
 
 theorem exB_good : Good (isingHam exE) exB := by
@@ -299,6 +338,25 @@ example (μ : List (List Nat × Rat)) :
         (ClusterFamily.ofComponents (isingFrozen (isingEdges exE).length exE.nvars) (isingHam exE) exE.nvars 6
           (isingHam_varsOK exE_edgesOK)) exE.nvars) :=
   ising_timestep_invariant_rvb_proposal exE 6 exE_edgesOK (by norm_num [exE]) (3 / 2) (by norm_num) f64eps
+    exE_closeExact μ [exR]
+
+/-- the derived `RegionOK` on the proposal of `ex_proposal` (script `[0, 0, w]` proposes `exR` from `exB`) -/
+example : RegionOK exE exB
+    ((proposeRegionCfg exE exB (RS.ofScript [0, 0, 12345678901234567890])).1.region exE.nvars) :=
+  rvb_proposeRegion_regionOK exB_good _ ex_proposal.2.2.2.2.2.1
+
+/-- `moveOKb` evaluates to `true` on the example move -/
+example : moveOKb exE 3 exR exB exA = true := by decide +kernel
+
+/-- the hypothesis-free headline on the instance -/
+example (μ : List (List Nat × Rat)) :
+    Invariant (sseCutOn (isingHam exE) (3 / 2) (cfgSpace (isingHam exE) exE.nvars 6))
+      (timestepWith (sweepKM (isingHam exE) (3 / 2) (cfgSpace (isingHam exE) exE.nvars 6) 6)
+        [restr (cfgSpace (isingHam exE) exE.nvars 6)
+          (rvbKP exE exE.nvars f64eps μ [exR] (cfgSpace (isingHam exE) exE.nvars 6))]
+        (ClusterFamily.ofComponents (isingFrozen (isingEdges exE).length exE.nvars) (isingHam exE) exE.nvars 6
+          (isingHam_varsOK exE_edgesOK)) exE.nvars) :=
+  ising_timestep_invariant_rvb_cut_proposal exE 6 exE_edgesOK (by norm_num [exE]) (3 / 2) (by norm_num) f64eps
     exE_closeExact μ [exR]
 
 /-- `exB` lies in that configuration space and carries positive measure -/
